@@ -215,3 +215,29 @@ def inject_parent(workload, base, op, scratch, grace=2.5):
             last = l
             break
     return dict(rc=p.returncode, killed=killed, matched=killed and bool(last), tail=last[:200], victims=int(killed), stdout=stdout[-4000:])
+
+
+# ------------------------------------------------------------------ interrupts between two lines of library code ---
+
+
+def record_lines(workload, base, scratch):
+    """Number of executed lines of library code in the workload; crash point k = KeyboardInterrupt before line k."""
+    snap = os.path.join(scratch, "snap")
+    setup(workload, base)
+    shutil.copytree(base, snap, symlinks=True)
+    p = subprocess.run([PY, WL, workload, "work", base], capture_output=True, text=True, env=dict(os.environ, W_EXC_COUNT="1"))
+    m = re.search(r"^LINES (\d+)$", p.stdout, re.M)
+    if p.returncode != 0 or not m:
+        raise HarnessError(f"line count of {workload} failed: {p.stderr[-1500:]}")
+    shutil.rmtree(base)
+    shutil.copytree(snap, base, symlinks=True)
+    n = int(m.group(1))
+    return [], [dict(name="line", ordinal=k, text=f"line({k} of {n})", mutating=True, proc=0) for k in range(1, n + 1)]
+
+
+def inject_line(workload, base, op, scratch):
+    p = subprocess.run([PY, WL, workload, "work", base], capture_output=True, text=True,
+                       env=dict(os.environ, W_EXC_AT_LINE=str(op["ordinal"])))
+    killed = p.returncode in (-2, 130, 1) and "KeyboardInterrupt" in p.stderr
+    return dict(rc=p.returncode, killed=killed, matched=killed, tail=op["text"] + " = ?", victims=int(killed),
+                stdout=p.stdout[-4000:], stderr=p.stderr[-600:])
